@@ -163,6 +163,28 @@ class ApiSession:
         kind = spec["kind"]
         if kind == "api_init":
             a = ynca.YncaApi("virtual://port", (lambda: (api.emit("disc_cb"), api.emit("disc_cb_ret"))) if spec.get("disconnect_cb", True) else None, spec.get("log_size", 0))
+            closer = spec.get("closer")
+            if closer:
+                # another thread calls YncaApi.close() while initialize() is (probably) still running
+                def close_later():
+                    api.sleep(closer["at"])
+                    for _ in range(closer.get("times", 1)):
+                        ev2 = api.emit("call", op=["close"], ctx="U1")
+                        exc2 = None
+                        conn2 = a._connection
+                        if conn2 is not None:
+                            conn2._verif_mute = True
+                        try:
+                            a.close()
+                        except sched.Hang:
+                            raise
+                        except BaseException as e:  # noqa: BLE001
+                            exc2 = e
+                        finally:
+                            if conn2 is not None:
+                                conn2._verif_mute = False
+                        api.emit("ret", call=ev2["seq"], op=["close"], ctx="U1", exc=type(exc2).__name__ if exc2 else None, msg=str(exc2)[:200] if exc2 else None, res=None)
+                api.spawn("U1", close_later)
             ev = api.emit("api_call", op="initialize")
             exc = None
             try:
@@ -255,6 +277,25 @@ class ApiSession:
                 obj.close()
             conn.close()
             api.sleep(5)
+        elif kind == "conv_race":
+            # the converters are class-level objects shared by every instance of a subunit class (two receivers in one process decode through
+            # the same object from two reader threads): concurrent decoding must give what sequential decoding gives
+            from .realobj import subunit_class
+            from .l3 import show_real
+            conv = getattr(subunit_class(spec["class"]), spec["attr"]).converter
+
+            def worker(i):
+                for t in spec["texts"][i]:
+                    try:
+                        r = "OK " + show_real(conv.to_value(t))
+                    except sched.Hang:
+                        raise
+                    except BaseException as e:  # noqa: BLE001
+                        r = "R " + type(e).__name__
+                    api.emit("conv", i=i, text=t, res=r)
+            ths = [api.spawn(f"U{i + 1}", worker, i) for i in range(len(spec["texts"]))]
+            for t in ths:
+                t.join()
         elif kind == "subunit_wire":
             # end to end: typed reads / assignments / action methods on a real subunit object on a real connection; the device reports values
             import ynca.connection as YC
